@@ -210,7 +210,7 @@ def avl_single_steps(rng, bits, lay, max_nodes, prefix_id, per_shape_variants=1,
                 if grow:
                     single += ['ext 1|ins 1 1', 'ext 2|fill 1001']
                 for op in single:
-                    ops = op.split('|') + ['fill 1001']
+                    ops = ['len'] + op.split('|') + ['fill 1001']
                     out.append(Case('%s%d' % (prefix_id, cid), 'avl', hdr, ops, {'stream': 'S', 'n': n}))
                     cid += 1
     return out
@@ -270,7 +270,7 @@ def avl_sparse_steps(rng, bits, lay, heights, prefix_id, per=10):
             picks_rem.add(2); picks_rem.add(2 * n)
             ops_list = ['ins %d 7' % k for k in sorted(picks_ins)] + ['rem %d' % k for k in sorted(picks_rem)]
             for op in ops_list:
-                out.append(Case('%s%d' % (prefix_id, cid), 'avl', hdr, [op, 'fill 100001'], {'stream': 'S', 'n': n}))
+                out.append(Case('%s%d' % (prefix_id, cid), 'avl', hdr, ['len', op, 'fill 100001'], {'stream': 'S', 'n': n}))
                 cid += 1
             # a longer walk from the sparse tree: keep removing / inserting
             walk = []
@@ -388,7 +388,7 @@ def hash_history(rng, cid, vty=None, cap=None, length=None, mode='persistent', f
     if fills and fk is not None:
         ops.append('fill %d' % fk)
     ops.append('iter')
-    hdr = {'vty': vty, 'cap': cap, 'nrec': cap, 'mode': mode}
+    hdr = {'vty': vty, 'cap': cap, 'nrec': cap + rng.choice([0, 0, 0, 1, 3, 6]), 'mode': mode}
     return Case(cid, 'hash', hdr, ops, {'stream': 'H'})
 
 def hash_pair_history(rng, cid, mode='persistent'):
@@ -496,7 +496,7 @@ def hash_single_steps(rng, prefix_id, thorough=False):
                     raw = hash_state_bytes(rng, vty, cap, vals, ef)
                     hdr = {'vty': vty, 'raw': raw.hex(), 'mode': 'persistent'}
                     for op in ['ins %d' % k for k in uni + [8]] + ['rem %d' % k for k in uni] + ['has %d' % k for k in uni[:4]]:
-                        out.append(Case('%s%d' % (prefix_id, cid), 'hash', hdr, [op, 'iter', 'size', 'full', 'fill 1000'], {'stream': 'S', 'n': n}))
+                        out.append(Case('%s%d' % (prefix_id, cid), 'hash', hdr, ['size', op, 'iter', 'size', 'full', 'fill 1000'], {'stream': 'S', 'n': n}))
                         cid += 1
     return out
 
@@ -627,10 +627,12 @@ def arr_single_steps(rng, p, vty, max_len, prefix_id, lookups_only=False):
             hdr = {'p': p, 'vty': vty, 'raw': raw.hex(), 'mode': 'persistent'}
             probes = list(range(1, 2 * n + 2))
             single = ['get %d 0' % k for k in probes] + ['has %d 0' % k for k in probes]
+            # get_mut searches too (the write keeps the element as it is)
+            single += ['gmut %d 0 %d %d' % (k, k, ((k // 2 - 1) * 7) % 10 if (vty == 'pair' and k % 2 == 0) else 0) for k in probes]
             if not lookups_only:
                 single += ['ins %d %d' % (k, 5 if vty == 'pair' else 0) for k in probes] + ['take %d 0' % k for k in probes] + ['rem %d 0' % k for k in probes]
             for op in single:
-                out.append(Case('%s%d' % (prefix_id, cid), 'arr', hdr, [op, 'deref', 'len', 'full'], {'stream': 'S', 'n': n}))
+                out.append(Case('%s%d' % (prefix_id, cid), 'arr', hdr, ['len', op, 'deref', 'len', 'full'], {'stream': 'S', 'n': n}))
                 cid += 1
     return out
 
@@ -840,7 +842,7 @@ def pod_cases(rng, prefix_id):
     ops = ['bool %d' % b for b in range(256)] + ['frombool 0', 'frombool 1']
     out.append(Case(prefix_id + 'bool', 'pod', {}, ops, {'stream': 'B', 'exhaustive': True}))
     ops = []
-    for sz in (1, 4, 8, 10, 32):
+    for sz in (0, 1, 4, 8, 10, 32):
         for ln in (0, sz - 1, sz, sz + 1, sz + 7):
             if ln < 0:
                 continue
@@ -848,6 +850,8 @@ def pod_cases(rng, prefix_id):
             ops.append('load %d %s' % (sz, hx(data)))
             val = bytes(rng.randint(0, 255) for _ in range(sz))
             ops.append('loadmut %d %s %s' % (sz, hx(data), hx(val)))
+        if ln >= 0:
+            ops.append('loadmutnw %d %s' % (sz, hx(bytes(rng.choice([0, 1, 2, 0x7f, 0x80, 0xff]) for _ in range(max(ln, sz))))))
         for off in (0, 1, 2, 3, 4, 5, 8, 12):
             data = bytes(rng.randint(1, 255) for _ in range(sz + 9))
             ops.append('loadoff %d %d %s' % (sz, off, hx(data)))
